@@ -8,10 +8,12 @@
    The Q-level functions the correspondence evaluates on the twin stream of base variates (cells push/...) are mapped by Q2R to
    the R-level g of these theorems (C05_push_q_R).
 
-   NOT formalised: the measure-theoretic step from this differential identity to "P(X in A) = integral of pdf over A", and the
-   base laws of the numpy bit-generator streams (standard normal, uniform, standard Gamma) themselves. *)
+   The step from this differential identity to probabilities is taken for INTERVALS (C05_push_interval_increasing / _decreasing,
+   Riemann integral of Coquelicot; closed instances without any hypothesis for the families drawn from a uniform variate: Uniform,
+   Cauchy, Laplace; Normal given a distribution function of the standard normal law).  NOT formalised: general measurable sets,
+   the joint law of several draws (independence), and the base laws of the numpy bit-generator streams themselves. *)
 From CV Require Import Model.C05_SampleR Model.C05_Push Proofs.C05_Wiring Proofs.C05_Push.
-From Coq Require Import Reals Lra QArith Qreals.
+From Coq Require Import Reals Lra QArith Qreals List.
 From Coquelicot Require Import Coquelicot.
 Open Scope R_scope.
 
@@ -107,6 +109,158 @@ Theorem C05_push_mhn_sqrt_gamma : forall lnGam a d,
 Proof. exact push_mhn_sqrt_gamma. Qed.
 Print Assumptions C05_push_mhn_sqrt_gamma.
 
+(* chains: if g1 pushes base to mid and g2 pushes mid to pdf then g2 o g1 pushes base to pdf *)
+Theorem C05_push_compose : forall (sb sm s : R -> Prop) (g1 g1inv d1 g2 g2inv d2 base mid pdf : R -> R),
+  pushes sb sm g1 g1inv d1 base mid -> pushes sm s g2 g2inv d2 mid pdf ->
+  pushes sb s (fun u => g2 (g1 u)) (fun x => g1inv (g2inv x)) (fun x => d1 (g2inv x) * d2 x) base pdf.
+Proof. exact pushes_compose. Qed.
+Print Assumptions C05_push_compose.
+
+(* Lognormal from the standard normal variate the generator delivers: exp(mean + std z), std = sqrt(cov) (one component) *)
+Theorem C05_push_lognormal_from_std : forall mean std, 0 < std ->
+  pushes everywhere positive_R (fun z => exp (normal_push mean std z)) (fun x => affine_inv mean std (ln x))
+         (fun x => / std * / x) std_normal_pdf (cuqi_lognormal_pdf mean std).
+Proof. exact push_lognormal_from_std. Qed.
+Print Assumptions C05_push_lognormal_from_std.
+
+(* ModifiedHalfNormal scheme 1 from the base variate: X = sqrt(rng.gamma(alpha/2, 1.0/delta)) = sqrt((1/delta) G) has the
+   proposal log-density mhn_gam_logg the proportionality theorem C05_mhn_gamma_proposal works with (lnGam = ln Gamma(alpha/2)) *)
+Theorem C05_push_mhn_scheme1 : forall Gam a d, 0 < Gam -> 0 < d ->
+  pushes positive_R positive_R (fun g => sqrt (gamma_push d g)) (fun x => gamma_inv d (x ^ 2)) (fun x => d * (2 * x))
+         (std_gamma_pdf Gam (a / 2)) (fun x => exp (mhn_gam_logg (ln Gam) a d x)).
+Proof. exact push_mhn_scheme1. Qed.
+Print Assumptions C05_push_mhn_scheme1.
+
+(* ---------------- from the differential form to PROBABILITIES of intervals (Coquelicot's Riemann integral) ----------------
+   If Fb is a distribution function of the base law (Fb' = base on the base support), then for every interval [a,b] inside the
+   support the integral of the documented pdf over [a,b] is the base probability of the pre-image of (a,b]. *)
+Theorem C05_push_interval_increasing : forall (supp_b supp : R -> Prop) (g ginv dginv base pdf Fb : R -> R) a b,
+  pushes supp_b supp g ginv dginv base pdf ->
+  (forall x, supp x -> 0 < dginv x) ->
+  (forall u, supp_b u -> is_derive Fb u (base u)) ->
+  a <= b -> (forall x, a <= x <= b -> supp x) -> (forall x, a <= x <= b -> continuous pdf x) ->
+  is_RInt pdf a b (Fb (ginv b) - Fb (ginv a)).
+Proof. exact pushes_interval_increasing. Qed.
+Print Assumptions C05_push_interval_increasing.
+
+Theorem C05_push_interval_decreasing : forall (supp_b supp : R -> Prop) (g ginv dginv base pdf Fb : R -> R) a b,
+  pushes supp_b supp g ginv dginv base pdf ->
+  (forall x, supp x -> dginv x < 0) ->
+  (forall u, supp_b u -> is_derive Fb u (base u)) ->
+  a <= b -> (forall x, a <= x <= b -> supp x) -> (forall x, a <= x <= b -> continuous pdf x) ->
+  is_RInt pdf a b (Fb (ginv a) - Fb (ginv b)).
+Proof. exact pushes_interval_decreasing. Qed.
+Print Assumptions C05_push_interval_decreasing.
+
+(* families drawn from a UNIFORM base variate (distribution function = identity on the unit interval): NOTHING is assumed --
+   P(a < X <= b) = length of the pre-image interval of uniforms = integral over [a,b] of the pdf the class reports *)
+Theorem C05_uniform_interval_prob : forall low high a b, low < high -> low <= a -> a <= b -> b < high ->
+  is_RInt (fun _ => exp (cuqi_uniform_logpdf low high)) a b ((b - low) / (high - low) - (a - low) / (high - low)).
+Proof. exact uniform_interval_prob. Qed.
+Print Assumptions C05_uniform_interval_prob.
+
+Theorem C05_cauchy_interval_prob : forall loc scale a b, 0 < scale -> a <= b ->
+  is_RInt (fun x => exp (cuqi_cauchy_logpdf loc scale x)) a b (cauchy_inv loc scale b - cauchy_inv loc scale a).
+Proof. exact cauchy_interval_prob. Qed.
+Print Assumptions C05_cauchy_interval_prob.
+
+Theorem C05_laplace_interval_prob : forall loc scale a b, 0 < scale -> a <= b ->
+  is_RInt (fun x => exp (cuqi_laplace_logpdf loc scale x)) a b (laplace_inv loc scale b - laplace_inv loc scale a).
+Proof. exact laplace_interval_prob. Qed.
+Print Assumptions C05_laplace_interval_prob.
+
+(* Normal: Phi = a distribution function of the standard normal law (its existence -- an antiderivative of the standard density --
+   is the one thing assumed) *)
+Theorem C05_normal_interval_prob : forall (Phi : R -> R) mean std a b, 0 < std -> a <= b ->
+  (forall z, is_derive Phi z (std_normal_pdf z)) ->
+  is_RInt (fun x => exp (cuqi_normal_logpdf mean std x)) a b (Phi ((b - mean) / std) - Phi ((a - mean) / std)).
+Proof. exact normal_interval_prob. Qed.
+Print Assumptions C05_normal_interval_prob.
+
+(* Lognormal (one component), from the standard normal variate, same assumption *)
+Theorem C05_lognormal_interval_prob : forall (Phi : R -> R) mean std a b, 0 < std -> 0 < a -> a <= b ->
+  (forall z, is_derive Phi z (std_normal_pdf z)) ->
+  is_RInt (cuqi_lognormal_pdf mean std) a b (Phi ((ln b - mean) / std) - Phi ((ln a - mean) / std)).
+Proof. exact lognormal_interval_prob. Qed.
+Print Assumptions C05_lognormal_interval_prob.
+
+(* Gamma (scale = 1/rate) and InverseGamma (law-equivalent decreasing form), given a distribution function FG of the standard Gamma law *)
+Theorem C05_gamma_interval_prob : forall (FG : R -> R) Gam shape rate a b, 0 < rate -> Gam <> 0 -> 0 < a -> a <= b ->
+  (forall g, 0 < g -> is_derive FG g (std_gamma_pdf Gam shape g)) ->
+  is_RInt (cuqi_gamma_pdf Gam shape rate) a b (FG (rate * b) - FG (rate * a)).
+Proof. exact gamma_interval_prob. Qed.
+Print Assumptions C05_gamma_interval_prob.
+
+Theorem C05_invgamma_interval_prob : forall (FG : R -> R) Gam a loc scale x1 x2, 0 < scale -> Gam <> 0 -> loc < x1 -> x1 <= x2 ->
+  (forall g, 0 < g -> is_derive FG g (std_gamma_pdf Gam a g)) ->
+  is_RInt (cuqi_invgamma_pdf Gam a loc scale) x1 x2 (FG (scale / (x1 - loc)) - FG (scale / (x2 - loc))).
+Proof. exact invgamma_interval_prob. Qed.
+Print Assumptions C05_invgamma_interval_prob.
+
+(* ---------------- rejection samplers: from "proposal x acceptance proportional to the target" to probabilities ----------------
+   one round of the loop proposes a point of [a,b] and accepts it with probability exp(K) * (target mass of [a,b]); K is free of the
+   interval, so accepted draws are distributed as the normalised target *)
+Theorem C05_rejection_interval : forall (logg logacc logf : R -> R) K J a b, a <= b ->
+  (forall x, a <= x <= b -> logg x + logacc x - logf x = K) ->
+  is_RInt (fun x => exp (logf x)) a b J ->
+  is_RInt (fun x => exp (logg x) * exp (logacc x)) a b (exp K * J).
+Proof. exact rejection_interval. Qed.
+Print Assumptions C05_rejection_interval.
+
+(* the three schemes of ModifiedHalfNormal on every interval [x1, x2] of the positive half line (the target is integrable there: proved) *)
+Theorem C05_mhn_gamma_scheme_interval : forall lnGam a b g x1 x2, 0 < a -> 0 < b -> 0 < g -> 0 < x1 -> x1 <= x2 ->
+  let d := mhn_delta a b g in
+  exists J, is_RInt (fun x => exp (mhn_logf a b g x)) x1 x2 J /\
+            is_RInt (fun x => exp (mhn_gam_logg lnGam a d x) * exp (mhn_gam_logacc b g d x)) x1 x2
+                    (exp ((a / 2) * ln d - lnGam + ln 2 - g * g / (4 * (b - d))) * J).
+Proof. exact mhn_gamma_scheme_interval. Qed.
+Print Assumptions C05_mhn_gamma_scheme_interval.
+
+Theorem C05_mhn_normal_scheme_interval : forall a b g mu x1 x2, 0 < b -> 0 < x1 -> x1 <= x2 ->
+  exists J, is_RInt (fun x => exp (mhn_logf a b g x)) x1 x2 J /\
+            is_RInt (fun x => exp (mhn_norm_logg b mu x) * exp (mhn_norm_logacc_fixed a b g mu x)) x1 x2
+                    (exp (b * mu * mu - g * mu - ln mu - ln (sqrt (PI / b)) - (a - 2) * ln mu) * J).
+Proof. exact mhn_normal_scheme_interval. Qed.
+Print Assumptions C05_mhn_normal_scheme_interval.
+
+Theorem C05_mhn_negative_scheme_interval : forall lnGam a b g m x1 x2, 0 < b -> g <= 0 -> 0 < m -> 0 < x1 -> x1 <= x2 ->
+  exists J, is_RInt (fun x => exp (mhn_logf a b g x)) x1 x2 J /\
+            is_RInt (fun x => exp (mhn_neg_logg lnGam a b g m x) * exp (mhn_neg_logacc b g m (mhn_neg_t b g m x))) x1 x2
+                    (exp (a * mhn_neg_v1 b g m * ln (mhn_neg_v2 b g m) - lnGam + ln (/ (mhn_neg_v1 b g m * m)) - (a - 1) * ln m) * J).
+Proof. exact mhn_negative_scheme_interval. Qed.
+Print Assumptions C05_mhn_negative_scheme_interval.
+
+(* ModifiedHalfNormal scheme 3 (gamma <= 0), every matching point m > 0: X = m T^v1 with T ~ Gamma(alpha v1, rate v2) has the
+   proposal log-density mhn_neg_logg of C05_mhn_negative_gamma *)
+Theorem C05_push_mhn_scheme3 : forall lnGam a b g m, 0 < b -> g <= 0 -> 0 < m ->
+  let v1 := mhn_neg_v1 b g m in let v2 := mhn_neg_v2 b g m in
+  pushes positive_R positive_R (mhn_neg_x b g m) (mhn_neg_t b g m)
+         (fun x => / (v1 * m) * Rpower (x / m) (/ v1 - 1))
+         (fun t => exp ((a * v1 - 1) * ln t - v2 * t + (a * v1) * ln v2 - lnGam))
+         (fun x => exp (mhn_neg_logg lnGam a b g m x)).
+Proof. exact push_mhn_scheme3. Qed.
+Print Assumptions C05_push_mhn_scheme3.
+
+(* ... and those distribution functions EXIST (fundamental theorem of calculus, Coquelicot's RInt): the statements with no
+   hypothesis left.  Phi / FG is an antiderivative of the base density, i.e. the base distribution function up to a constant, which
+   cancels in the differences. *)
+Theorem C05_normal_interval_prob_closed : exists Phi : R -> R, (forall z, is_derive Phi z (std_normal_pdf z)) /\
+  (forall mean std a b, 0 < std -> a <= b ->
+     is_RInt (fun x => exp (cuqi_normal_logpdf mean std x)) a b (Phi ((b - mean) / std) - Phi ((a - mean) / std))) /\
+  (forall mean std a b, 0 < std -> 0 < a -> a <= b ->
+     is_RInt (cuqi_lognormal_pdf mean std) a b (Phi ((ln b - mean) / std) - Phi ((ln a - mean) / std))).
+Proof. exact normal_interval_prob_closed. Qed.
+Print Assumptions C05_normal_interval_prob_closed.
+
+Theorem C05_gamma_interval_prob_closed : forall Gam shape, Gam <> 0 -> exists FG : R -> R,
+  (forall g, 0 < g -> is_derive FG g (std_gamma_pdf Gam shape g)) /\
+  (forall rate a b, 0 < rate -> 0 < a -> a <= b ->
+     is_RInt (cuqi_gamma_pdf Gam shape rate) a b (FG (rate * b) - FG (rate * a))) /\
+  (forall loc scale x1 x2, 0 < scale -> loc < x1 -> x1 <= x2 ->
+     is_RInt (cuqi_invgamma_pdf Gam shape loc scale) x1 x2 (FG (scale / (x1 - loc)) - FG (scale / (x2 - loc)))).
+Proof. exact gamma_interval_prob_closed. Qed.
+Print Assumptions C05_gamma_interval_prob_closed.
+
 (* the rational transformations evaluated by the correspondence (check_push) are these R-level transformations *)
 Theorem C05_push_q_R : forall m s z l h u r g ga gb,
   Q2R (normal_push_q m s z) = normal_push (Q2R m) (Q2R s) (Q2R z) /\
@@ -117,6 +271,14 @@ Proof.
   intros. split; [apply normal_push_q_R|]. split; [apply uniform_push_q_R|]. split; [apply gamma_push_q_R | apply beta_push_q_R].
 Qed.
 Print Assumptions C05_push_q_R.
+
+(* an accepted check_push cell establishes: every observed draw is within 1e-9 (1 + |.|) of the R-level transformation g (of the
+   theorems above) applied to the exact rational images of the parameters and of the twin generator's base variates *)
+Theorem C05_push_cell_sound : forall rows, check_push rows = true ->
+  forall r, In r rows ->
+    Rabs (fst (push_row_R r) - snd (push_row_R r)) <= Q2R (1 # 1000000000) * (1 + Rabs (snd (push_row_R r))).
+Proof. exact check_push_sound. Qed.
+Print Assumptions C05_push_cell_sound.
 
 (* ---------------- non-vacuity ---------------- *)
 (* the hypotheses of C05_push_ppf are satisfiable: the standard Cauchy triple *)
